@@ -92,6 +92,10 @@ func (p *C12) Generate(seed uint64, run int) *Case {
 		case 4:
 			b.Input = append(b.Input, 0x1a)
 			c.Labels = append(c.Labels, "input:ctrl-z")
+		case 7, 8:
+			// bytes that are not UTF-8 (a Latin-1 lyric, a stray continuation byte)
+			b.Input = faultBadUTF8(r, b.Input)
+			c.Labels = append(c.Labels, "input:invalid-utf8")
 		}
 	}
 	// one run in five: an input that makes the command fail
@@ -301,6 +305,12 @@ func (p *C12) Generate(seed uint64, run int) *Case {
 				st.Files[outPath] = &simrt.FileSpec{WritePlan: wp}
 			}
 			st.SchedPolicy = model.Pick(r, schedPolicies)
+		})
+	}
+	if r.Chance(1, 3) {
+		// standard output is a regular file that already holds data (>> log)
+		add("stdout:file-append", func(st *Step) {
+			st.Stdout = &simrt.WritePlan{Kind: "file", Existing: model.Pick(r, []int{1, 17, 4096, 100000})}
 		})
 	}
 	if r.Chance(1, 3) {
